@@ -954,6 +954,9 @@ impl<'p> World<'p> {
                 if sig[0] == 0 || (bk.family() == 3 && sig[48] == 0) {
                     self.stats.bump("probe:signature-component-leading-zero");
                 }
+                if bk.family() == 3 && ((sig[0] == 0 && sig[1] == 0) || (sig[48] == 0 && sig[49] == 0)) {
+                    self.stats.bump("probe:signature-component-two-leading-zero-bytes");
+                }
             }
         } else if parts.payload.first() == Some(&0) {
             self.stats.bump("probe:nonce-leading-zero");
